@@ -169,7 +169,22 @@ class Extractor:
                 v = self.expr(st.value)
                 self.env[st.target.id] = self.binop(st.op, cur, v, st)
                 return
-            self.err("augmented store into a subscript", st)
+            if isinstance(st.target, ast.Subscript):
+                # X[i] op= v  ==  X[i] = X[i] op v
+                import copy
+                load = copy.deepcopy(st.target)
+                for n in ast.walk(load):
+                    if hasattr(n, "ctx") and isinstance(n.ctx, ast.Store):
+                        n.ctx = ast.Load()
+                syn = ast.Assign(targets=[st.target], value=ast.BinOp(left=load, op=st.op, right=st.value))
+                ast.copy_location(syn, st)
+                ast.copy_location(syn.value, st)
+                ast.fix_missing_locations(syn)
+                self.synthetic = getattr(self, "synthetic", {})
+                self.synthetic[id(syn)] = st
+                self.store(syn)
+                return
+            self.err("augmented store", st)
         if isinstance(st, ast.For):
             self.loop(st)
             return
@@ -316,6 +331,9 @@ class Extractor:
         if isinstance(e, ast.Name):
             if e.id in self.env:
                 return self.env[e.id]
+            g = self.func.module.globals.get(e.id)
+            if isinstance(g, ast.Constant) and isinstance(g.value, (int, float)) and not isinstance(g.value, bool):
+                return self.expr(g)  # module-level numeric constant
             self.err(f"name `{e.id}` has no symbolic value", e)
         if isinstance(e, ast.UnaryOp):
             v = self.expr(e.operand)
@@ -328,6 +346,15 @@ class Extractor:
             return self.binop(e.op, self.expr(e.left), self.expr(e.right), e)
         if isinstance(e, ast.Tuple):
             return tuple(self.expr(x) for x in e.elts)
+        if isinstance(e, ast.Compare) and len(e.ops) == 1 and isinstance(e.ops[0], (ast.Lt, ast.LtE, ast.Gt, ast.GtE)):
+            # elementwise comparison of arrays: a 0/1 indicator (it takes part in arithmetic as such)
+            l, r = self.expr(e.left), self.expr(e.comparators[0])
+            if isinstance(l, SV) and isinstance(r, SV):
+                rel = {ast.Lt: sp.Lt, ast.LtE: sp.Le, ast.Gt: sp.Gt, ast.GtE: sp.Ge}[type(e.ops[0])]
+                labels = self.broadcast(l, r, e)
+                a, b = sp.Symbol("cmp_l", real=True), sp.Symbol("cmp_r", real=True)
+                ind = sp.Function("Indicator")(sp.Symbol(type(e.ops[0]).__name__), l.e, r.e)
+                return SV(ind, labels)
         if isinstance(e, ast.Subscript):
             return self.subscript(e)
         if isinstance(e, ast.Attribute):
@@ -769,7 +796,7 @@ class Extractor:
         if v.labels is None:
             self.err("reduction of a value of unknown rank", node)
         n = len(v.labels)
-        axes = [axis] if isinstance(axis, int) else list(axis)
+        axes = list(range(n)) if axis is None else [axis] if isinstance(axis, int) else list(axis)
         axes = [a + n if a < 0 else a for a in axes]
         val = v.e
         labs = []
@@ -925,6 +952,32 @@ class Extractor:
                 labs = [l for k, l in enumerate(x.labels) if k != i] + [l for k, l in enumerate(y.labels) if k != j]
                 out = SV(Contract(x.e * y.e, sp.Symbol("over_" + "_".join(str(z) for z in (lx.base if isinstance(lx.base, tuple) else (lx.base,))))), labs)
                 return out
+        if short == "einsum" and e.args and isinstance(e.args[0], ast.Constant) and isinstance(e.args[0].value, str) \
+                and "->" in e.args[0].value and "." not in e.args[0].value:
+            spec = e.args[0].value.replace(" ", "")
+            ins, outs = spec.split("->")
+            ins = ins.split(",")
+            ops = [self.expr(a) for a in e.args[1:]]
+            if len(ins) == len(ops) and all(isinstance(o, SV) and o.labels is not None for o in ops):
+                letter = {}
+                prod = sp.Integer(1)
+                for sub, o in zip(ins, ops):
+                    if len(sub) != len(o.labels):
+                        raise LabelMismatch(f"`{ast.unparse(e)[:80]}`: subscripts `{sub}` for an operand with axes {o.labels}", e)
+                    for ch, lab in zip(sub, o.labels):
+                        if lab.is_one():
+                            continue
+                        if ch in letter and letter[ch].base != lab.base and not self.compatible(letter[ch], lab):
+                            raise LabelMismatch(f"`{ast.unparse(e)[:80]}`: index `{ch}` joins axis {letter[ch]} with axis {lab}", e)
+                        letter.setdefault(ch, lab)
+                    prod = prod * o.e
+                if any(ch not in letter for ch in outs) or len(set(outs)) != len(outs):
+                    self.err("einsum output subscripts", e)
+                val = prod
+                for ch in sorted(set(letter) - set(outs)):
+                    lx = letter[ch]
+                    val = Contract(val, sp.Symbol("over_" + "_".join(str(z) for z in (lx.base if isinstance(lx.base, tuple) else (lx.base,)))))
+                return SV(val, [letter[ch] for ch in outs])
         if short == "transpose":
             x = self.expr(e.args[0])
             perm = self.expr(e.args[1]) if len(e.args) > 1 else None
